@@ -161,6 +161,69 @@ def check_cases(ctx, cases, lmplz, model):
     return res
 
 
+def adjf_line(case):
+    """component case: the sorted padded order-N n-grams of the corpus with counts, for the real AdjustCounts and the model"""
+    numbered = kn.number(kn.tokenize(case.data), case.skip)
+    prune = kn.pad_prune(case.prune, case.order)
+    if numbered is None or prune is None:
+        return None
+    ids, words = numbered
+    N = case.order
+    counts = {}
+    for s in ids:
+        toks = [1] * (N - 1) + [w for w in s if w > 2] + [2]
+        for i in range(N - 1, len(toks)):
+            g = tuple(toks[i - N + 1:i + 1])
+            counts[g] = counts.get(g, 0) + 1
+    if not counts:
+        return None
+    pruned = "-"
+    if case.limit is not None:
+        index = {w: i for i, w in enumerate(words)}
+        allowed = {index[w] for w in case.limit if w in index}
+        pr = [i for i in range(3, len(words)) if i not in allowed]
+        pruned = ",".join("%x" % i for i in pr) if pr else "-"
+    fulls = " ".join("%s=%x" % (".".join("%x" % w for w in g), counts[g]) for g in kn.suffix_sorted(counts.keys()))
+    return "ADJF %x %s %s %x %s" % (N, ",".join("%x" % t for t in prune), pruned, len(words), fulls)
+
+
+def component_check(ctx, cases, model):
+    """the real AdjustCounts class on a chain per order against the extracted `adjust`: streams (n-gram, adjusted count,
+    pruning mark, in stream order), counts / counts_pruned exactly; discounts within float32 tolerance"""
+    import struct
+    drv = vlib.compile_driver("c05_adjust_driver", os.path.join(vlib.ROOT, "harness", "drivers", "c05_adjust_driver.cc"),
+                              libs=("kenlm_builder", "kenlm", "kenlm_util"))
+    lines = [l for l in (adjf_line(c) for c in cases) if l and len(l) < 400000]
+    if not lines:
+        return 0, []
+    iout = vlib.run_lines(drv, lines, timeout=ctx.pick(300, 1500))
+    mout = vlib.run_lines(model, lines, timeout=ctx.pick(300, 1500))
+    bad = []
+    for l, a, b in zip(lines, iout, mout):
+        pa, pb = a.split(" #"), b.split(" #")
+        if len(pa) != 3 or len(pb) != 3:
+            bad.append((l, a[:300], b[:300], "unexpected answer"))
+            continue
+        if pa[0] != pb[0] or pa[1] != pb[1]:
+            k = next((i for i, (x, y) in enumerate(zip(pa[0].split(" ; "), pb[0].split(" ; "))) if x != y), None)
+            bad.append((l, a[:300], b[:300], "streams or counts differ" + ("" if k is None else " at order %d" % (k + 1))))
+            continue
+        da, db = pa[2].split(), pb[2].split()
+        if len(da) != len(db):
+            bad.append((l, pa[2], pb[2], "number of discounts"))
+            continue
+        for x, y in zip(da, db):
+            fx = [struct.unpack("<f", struct.pack("<I", int(h, 16)))[0] for h in x.split(":")]
+            fy = [float(kn.parse_q(q)) for q in y.split(":")]
+            if any(abs(u - v) > 2e-5 * max(abs(v), 1e-3) + 1e-6 for u, v in zip(fx, fy)):
+                # closed form on the boundary of its range: float and exact arithmetic may choose differently
+                if fx == [0.5, 1.0, 1.5] or fy == [0.5, 1.0, 1.5]:
+                    continue
+                bad.append((l, pa[2], pb[2], "discounts differ"))
+                break
+    return len(lines), bad
+
+
 def run(ctx):
     pres = vlib.coq_prove("C05")
     ctx.set_proof(pres)
@@ -189,6 +252,11 @@ def run(ctx):
             spec_fail.append((c, run_, ofail))
         if corr:
             corr_fail.append((c, run_, corr))
+    ncomp, comp_bad = (0, [])
+    if model:
+        ncomp, comp_bad = component_check(ctx, cases[:ctx.pick(400, 3000)], model)
+    ctx.coverage["component_cases_adjust_counts"] = ncomp
+    ctx.coverage["component_mismatches"] = len(comp_bad)
     ctx.count("evaluations", len(cases))
     ctx.coverage["distinct_nontrivial"] = len(nontrivial)
     ctx.coverage["rule"] = ("one evaluation = one lmplz run on a generated corpus (5-400 sentences, 1-60 word types, Zipf-like repetition, repeated "
@@ -217,6 +285,11 @@ def run(ctx):
             continue
         seen.add(sig)
         ctx.report(sig, msg, {"case": c.to_json(), "lmplz_cmd": " ".join(run_.cmd), "statistics": run_.stats, "how": "./check C05 --replay <this file>"})
+    if not spec_fail and comp_bad and not corr_fail:
+        l, a, b, why = comp_bad[0]
+        ctx.report("correspondence:adjust-counts-component", "the real AdjustCounts and the extracted `adjust` disagree (%s); the tool-level oracle finds no wrong output" % why,
+                   {"correspondence": "lm::builder::AdjustCounts on chains vs extracted adjust", "case": l[:20000], "impl": a, "model": b,
+                    "n_mismatches": len(comp_bad), "how": "echo '<case>' | c05_adjust_driver"}, found=False)
     if not spec_fail:
         if corr_fail:
             c, run_, (sig, msg) = corr_fail[0]
